@@ -75,7 +75,7 @@ impl MessageHeader {
     #[cfg(feature = "uom")]
     pub fn segment_size(&self) -> Option<Information> {
         if self.segment_size < VARIABLE_LENGTH_MESSAGE_SIZE {
-            Some(Information::new::<byte>((self.segment_size * 2) as f64))
+            Some(Information::new::<byte>((self.segment_size as u32 * 2) as f64))
         } else {
             None
         }
@@ -171,9 +171,9 @@ impl MessageHeader {
         match self.segment_count() {
             Some(_) => self.segment_size as u32 * 2,
             None => {
+                let segment_count = self.segment_count as u32;
                 let segment_number = self.segment_number as u32;
-                let segment_size = self.segment_size as u32;
-                (segment_number << 16) | (segment_size << 1)
+                (segment_count << 16) | segment_number
             }
         }
     }
@@ -184,13 +184,13 @@ impl MessageHeader {
     pub fn message_size(&self) -> Information {
         match self.segment_count() {
             Some(_) => {
-                let segment_size_bytes = self.segment_size << 1;
+                let segment_size_bytes = (self.segment_size as u32) << 1;
                 Information::new::<byte>(segment_size_bytes as f64)
             }
             None => {
+                let segment_count = self.segment_count as u32;
                 let segment_number = self.segment_number as u32;
-                let segment_size = self.segment_size as u32;
-                let message_size_bytes = (segment_number << 16) | segment_size;
+                let message_size_bytes = (segment_count << 16) | segment_number;
                 Information::new::<byte>(message_size_bytes as f64)
             }
         }
